@@ -84,6 +84,47 @@ def conformant(rng, kind):
     raise ValueError(kind)
 
 
+def scramble_reserved(rng, b):
+    """Set reserved bytes of an A-ASSOCIATE-RQ/AC to non-zero values: PS3.8 says of every one of them that it shall
+    not be tested when received, so the PDU stays conformant for the receiver."""
+    b = bytearray(b)
+    if len(b) < 74 or b[0] not in (1, 2):
+        return bytes(b)
+
+    def maybe(i):
+        if i < len(b) and rng.randrange(3) == 0:
+            b[i] = rng.choice([0x01, 0x7F, 0x80, 0xFF])
+
+    maybe(1)
+    maybe(8)
+    maybe(9)
+    for i in range(42, 74):
+        if rng.randrange(8) == 0:
+            maybe(i)
+    off = 74
+    while off + 4 <= len(b):
+        t = b[off]
+        ln = int.from_bytes(b[off + 2:off + 4], "big")
+        maybe(off + 1)
+        end = off + 4 + ln
+        sub = None
+        if t == 0x20:
+            for k in (5, 6, 7):
+                maybe(off + k)
+            sub = off + 8
+        elif t == 0x21:
+            maybe(off + 5)
+            maybe(off + 7)
+            sub = off + 8
+        elif t == 0x50:
+            sub = off + 4
+        while sub is not None and sub + 4 <= end:
+            maybe(sub + 1)
+            sub += 4 + int.from_bytes(b[sub + 2:sub + 4], "big")
+        off = end
+    return bytes(b)
+
+
 # ----------------------------------------------------------------- class (b): mutants
 def mutate(rng, b):
     b = bytearray(b)
@@ -138,6 +179,8 @@ def gen(rng, idx, tier):
             probes.append({"cls": "c", "kind": "random", "hex": data.hex()})
         else:
             data = conformant(r2, kind)
+            if kind in ("rq", "ac") and r2.randrange(3) == 0:
+                data = scramble_reserved(r2, data)     # still conformant: reserved bytes are not to be tested
             mut = "none"
             if cls == "b" and kind == "rq" and r2.randrange(6) == 0:
                 # a well-framed request in which one presentation context item has no transfer syntax sub-item
